@@ -155,6 +155,9 @@ func (fx *fctx) evalArgs(st *State, ce *ast.CallExpr, ft *ast.FuncType, sig *typ
 			addr := e.allocCells(st, ts.Int(int64(len(rest))))
 			for j, a := range rest {
 				v := fx.convertForAssign(st, fx.eval(st, a), elemT)
+				if e.nonNilElem(elemT) && v.Tm != nil && !fx.spec {
+					fx.check(st, "elem-nonnil", "variadic", ts.Ne(v.Tm, ts.Int(0)), a, "variadic argument packed into a slice is not nil")
+				}
 				e.storeCell(st, "", ts.Add(addr, ts.Int(int64(j))), elemT, v)
 			}
 			out = append(out, &Value{T: p.Type(), Sl: &SliceVal{Ptr: addr, Len: ts.Int(int64(len(rest))), Cap: ts.Int(int64(len(rest)))}})
@@ -208,13 +211,18 @@ func (fx *fctx) evalBuiltin(st *State, name string, ce *ast.CallExpr) []*Value {
 		if ce.Ellipsis != token.NoPos {
 			src = fx.eval(st, ce.Args[1])
 			if src.Sl != nil {
+				fx.assumeElemsNonNil(st, src, elemT)
 				n = src.Sl.Len
 			} else { // append([]byte, string...)
 				n = ts.App("str_len", SInt, src.Tm)
 			}
 		} else {
 			for _, a := range ce.Args[1:] {
-				vals = append(vals, fx.convertForAssign(st, fx.eval(st, a), elemT))
+				av := fx.convertForAssign(st, fx.eval(st, a), elemT)
+				if e.nonNilElem(elemT) && av.Tm != nil && !fx.spec {
+					fx.check(st, "elem-nonnil", "append", ts.Ne(av.Tm, ts.Int(0)), a, "value appended to the slice is not nil")
+				}
+				vals = append(vals, av)
 			}
 			n = ts.Int(int64(len(vals)))
 		}
@@ -258,6 +266,10 @@ func (fx *fctx) evalBuiltin(st *State, name string, ce *ast.CallExpr) []*Value {
 			fx.check(st, "makeslice", abbrev(e.exprStr(ce)), ts.And(ts.Le(ts.Int(0), n), ts.Le(n, c), ts.Le(c, ts.IntBig(maxSliceLen))), ce, "make: length in range")
 			addr := e.allocCells(st, c)
 			fx.zeroCells(st, u.Elem(), addr, c)
+			if fx.madeSlices == nil {
+				fx.madeSlices = map[int]bool{}
+			}
+			fx.madeSlices[addr.id] = true
 			return []*Value{{T: t, Sl: &SliceVal{Ptr: addr, Len: n, Cap: c}}}
 		case *types.Map, *types.Chan:
 			for _, a := range ce.Args[1:] {
@@ -278,6 +290,7 @@ func (fx *fctx) evalBuiltin(st *State, name string, ce *ast.CallExpr) []*Value {
 		var n *Term
 		if src.Sl != nil {
 			n = ts.App("min2", SInt, dst.Sl.Len, src.Sl.Len)
+			fx.assumeElemsNonNil(st, src, elemT)
 			fx.copyCells(st, elemT, dst.Sl.Ptr, src.Sl.Ptr, n, ts.True())
 		} else {
 			n = ts.App("min2", SInt, dst.Sl.Len, ts.App("str_len", SInt, src.Tm))
@@ -1088,6 +1101,13 @@ func (fx *fctx) intrinsic(st *State, name string, ce *ast.CallExpr) ([]*Value, b
 		fx.spec = saved
 		st.assume(g)
 		return nil, true
+	case "wrapInt":
+		x := fx.evalInt(st, ce.Args[0])
+		return []*Value{{T: t, Tm: ts.App("wrap_i64", SInt, x)}}, true
+	case "sharedBuiltin":
+		// sharedBuiltin(p): p is one of the package's shared built-in values (uninterpreted; see mapvals)
+		p := fx.eval(st, ce.Args[0])
+		return []*Value{{T: t, Tm: ts.App("shared_builtin", SBool, p.Tm)}}, true
 	case "rngSame":
 		if fx.oldState == nil {
 			e.unsup(ce, "rngSame outside two-state clause")
@@ -1423,4 +1443,17 @@ func (fx *fctx) preCallHooks(st *State, ce *ast.CallExpr, args []*Value) {
 	if ref, ok := fx.callIndex[ce]; ok {
 		fx.runHooks(st, "precall", ref.n, ref.name, ce, args)
 	}
+}
+
+// assumeElemsNonNil: bulk form of the element discipline (see nonnil-elems): a slice that is visible outside the
+// frame that built it holds no nil element.
+func (fx *fctx) assumeElemsNonNil(st *State, v *Value, elemT types.Type) {
+	e := fx.e
+	if fx.spec || v == nil || v.Sl == nil || !e.nonNilElem(elemT) || fx.isMade(v.Sl.Ptr) {
+		return
+	}
+	ts := e.ts
+	k := ts.BoundVar("ne", SInt)
+	h := e.heapGet(st, e.elemKey(elemT), ArrSort(SInt))
+	st.assume(ts.Forall([]*Term{k}, ts.Implies(ts.And(ts.Le(ts.Int(0), k), ts.Lt(k, v.Sl.Len)), ts.Ne(ts.Select(h, ts.Add(v.Sl.Ptr, k)), ts.Int(0)))))
 }
